@@ -119,6 +119,41 @@ func Directed() [][]string {
 	// a slicer updated to a smaller bound after it has sliced data
 	out = append(out, []string{"add up t1 slicer 1000 100 0 1", "newlink a up", "src a 2500", "src a 2500", fmt.Sprintf("adv %d", 10*MS),
 		"upd t1 slicer 10 2 0 1", fmt.Sprintf("adv %d", MS), "src a 1000", fmt.Sprintf("adv %d", 100*MS), "adv 30000000000"})
+	// a backlog in a buffered toxic that is removed: every piece gets its own five seconds
+	{
+		ops := []string{"allowblock", "add up t1 latency 3000 0 0 1", "add up t2 bandwidth 1 0 0 1", "newlink a up"}
+		for k := 0; k < 16; k++ {
+			ops = append(ops, "src a 500")
+		}
+		ops = append(ops, fmt.Sprintf("adv %d", 100*MS), "del t1", fmt.Sprintf("adv %d", 12000*MS), "src a 5", "srceof a", "adv 30000000000", "adv 600000000000")
+		out = append(out, ops)
+	}
+	// a toxic updated after the link's source has ended, with data still held in it
+	out = append(out, []string{"add up t1 latency 4000 0 0 1", "newlink a up", "src a 5", fmt.Sprintf("adv %d", MS), "srceof a", fmt.Sprintf("adv %d", 300*MS),
+		"upd t1 latency 0 0 0 1", fmt.Sprintf("adv %d", 1500*MS), "adv 30000000000"})
+	// a rejected update while a chunk sleeps in the toxic / while its timer runs
+	out = append(out, []string{"add up t1 latency 1500 0 0 1", "newlink a up", "src a 5", fmt.Sprintf("adv %d", 200*MS), "updbad t1", fmt.Sprintf("adv %d", 100*MS),
+		fmt.Sprintf("adv %d", 2000*MS), "adv 30000000000"})
+	out = append(out, []string{"add up t1 timeout 1000 0 0 1", "newlink a up", "src a 5", fmt.Sprintf("adv %d", 700*MS), "updbad t1", fmt.Sprintf("adv %d", 400*MS),
+		fmt.Sprintf("adv %d", 2000*MS), "adv 30000000000"})
+	// timeout 0: the connection must still end when the sender does
+	out = append(out, []string{"add up t1 timeout 0 0 0 1", "newlink a up", "src a 5", fmt.Sprintf("adv %d", MS), "srceof a", fmt.Sprintf("adv %d", 1000*MS), "adv 30000000000"})
+	// bandwidth instalments in front of latency: every instalment is still delayed
+	out = append(out, []string{"add up t1 bandwidth 1 0 0 1", "add up t2 latency 1500 0 0 1", "newlink a up", "src a 500", fmt.Sprintf("adv %d", 600*MS),
+		fmt.Sprintf("adv %d", 2000*MS), "adv 30000000000"})
+	// two connections through one slicer: the second's packet reaches the toxic between two pieces of
+	// the first's (state that belongs to a packet must not be shared between connections)
+	for _, sz := range [][2]int{{40, 25}, {64, 33}, {30, 30}} {
+		out = append(out, []string{"add up t1 slicer 10 0 100000 1", "newlink a up", "newlink b up", fmt.Sprintf("src a %d", sz[0]), fmt.Sprintf("adv %d", 50*MS),
+			fmt.Sprintf("src b %d", sz[1]), fmt.Sprintf("adv %d", 2000*MS), "srceof a", "srceof b", "adv 30000000000"})
+	}
+	// limit_data: the close belongs to the first data at or beyond the limit - not to the start of the
+	// toxic (limit 0, nothing sent yet) and not to an update that lowers the limit below what has passed
+	out = append(out, []string{"add up t1 limit_data 0 0 0 1", "newlink a up", fmt.Sprintf("adv %d", 300*MS), "src a 5", fmt.Sprintf("adv %d", MS), "adv 30000000000"})
+	out = append(out, []string{"add up t1 limit_data 100 0 0 1", "newlink a up", "src a 10", fmt.Sprintf("adv %d", MS), "upd t1 limit_data 5 0 0 1",
+		fmt.Sprintf("adv %d", 300*MS), "src a 5", fmt.Sprintf("adv %d", MS), "adv 30000000000"})
+	out = append(out, []string{"newlink a up", "src a 10", fmt.Sprintf("adv %d", MS), "add up t1 limit_data 0 0 0 1", fmt.Sprintf("adv %d", 300*MS), "src a 5",
+		fmt.Sprintf("adv %d", MS), "adv 30000000000"})
 	// C14: independence of the per-connection decisions, and their frequency for small toxicities
 	out = append(out, []string{"indep 40"})
 	return out
